@@ -341,8 +341,27 @@ def rule_D3(ctx):
             body = [s for s in ne.node.body if not (isinstance(s, ast.Expr) and isinstance(s.value, ast.Constant))]
             txt = ast.unparse(body[0]) if len(body) == 1 else ''
             pn = ne.params()[1] if len(ne.params()) > 1 else 'bs'
-            if txt not in (f'return not self.__eq__({pn})', f'return not self == {pn}'):
-                if '__eq__' in txt or '==' in txt:
+            eq_forms = (f'self.__eq__({pn})', f'self == {pn}')
+            negation = txt in tuple(f'return not {e}' for e in eq_forms)
+            if not negation and body:
+                # the same thing spelled with a branch: `if <eq>: return False` ... `return True` (either polarity)
+                from . import guards as G
+                first = body[0]
+                if isinstance(first, ast.If):
+                    pt, tb, fb = G.pos_if(first)
+                    fb = list(fb) + list(body[1:])
+                elif len(body) == 1 and isinstance(first, ast.Return) and isinstance(first.value, ast.IfExp):
+                    pt, tv, fv = G.pos_if(first.value)
+                    tb, fb = [ast.Return(value=tv)], [ast.Return(value=fv)]
+                else:
+                    pt, tb, fb = None, [], []
+                if pt is not None and ast.unparse(pt) in eq_forms:
+                    rt = [x for s0 in tb for x in ast.walk(s0) if isinstance(x, ast.Return)]
+                    rf = [x for s0 in fb for x in ast.walk(s0) if isinstance(x, ast.Return)]
+                    negation = bool(rt) and bool(rf) and all(isinstance(x.value, ast.Constant) and x.value.value is False for x in rt) \
+                        and all(isinstance(x.value, ast.Constant) and x.value.value is True for x in rf)
+            if not negation:
+                if '__eq__' in ast.unparse(ne.node) or '==' in ast.unparse(ne.node):
                     raise AnalysisError(f'{ne.key}: negation form not recognised (needs a human)')
                 r.fail(ne.key, f'{c}.__ne__', '!= must be the negation of ==', loc=ne.loc())
             else:
@@ -356,6 +375,8 @@ def rule_D3(ctx):
     while isinstance(chain, ast.If) and len(chain.orelse) == 1 and isinstance(chain.orelse[0], ast.If):
         chain = chain.orelse[0]
     final = chain.orelse if isinstance(chain, ast.If) else []
+    if isinstance(last, ast.Raise):
+        final = [last]            # guard-clause style: every branch returns, what is left falls through to the raise
     rs = [x for s in final for x in ast.walk(s) if isinstance(x, ast.Raise)]
     if not rs:
         raise AnalysisError(f'{f.key}: fall-through branch not recognised')
